@@ -28,24 +28,24 @@ fn b(sim: &'static str, focus: &'static str, q: u64, t: u64, profile: &'static s
 
 pub fn plan(prop: &str) -> Vec<Batch> {
     match prop {
-        "C01" => vec![b("a", "C01", 4000, 120_000, "release")],
-        "C02" => vec![b("a", "C02", 4000, 120_000, "release")],
-        "C03" => vec![b("a", "C03", 4000, 120_000, "release")],
-        "C04" => vec![b("a", "C04", 4000, 120_000, "release")],
-        "C05" => vec![b("a", "C05", 4000, 120_000, "release")],
-        "C06" => vec![b("a", "C06", 3000, 80_000, "release"), b("a", "C06", 1500, 40_000, "checked")],
-        "C07" => vec![b("a", "C07", 4000, 120_000, "release")],
-        "C08" => vec![b("a", "C08", 3000, 100_000, "release")],
-        "C09" => vec![b("b", "C09", 6000, 300_000, "release")],
-        "C10" => vec![b("b", "C10", 6000, 300_000, "release")],
-        "C11" => vec![b("b", "C11", 1500, 60_000, "release")],
-        "C12" => vec![b("b", "C12", 6000, 300_000, "release")],
-        "C13" => vec![b("b", "C13", 6000, 300_000, "release")],
-        "C14" => vec![b("a", "C14", 4000, 150_000, "release")],
-        "C15" => vec![b("b", "C15", 6000, 300_000, "release"), b("a", "C15", 2000, 60_000, "release")],
-        "C16" => vec![b("a", "C16", 3000, 100_000, "release")],
-        "C17" => vec![b("a", "C17", 5000, 200_000, "release")],
-        "C18" => vec![b("c", "C18", 600, 30_000, "release")],
+        "C01" => vec![b("a", "C01", 10_000, 250_000, "release")],
+        "C02" => vec![b("a", "C02", 10_000, 250_000, "release")],
+        "C03" => vec![b("a", "C03", 10_000, 250_000, "release")],
+        "C04" => vec![b("a", "C04", 10_000, 250_000, "release")],
+        "C05" => vec![b("a", "C05", 10_000, 250_000, "release")],
+        "C06" => vec![b("a", "C06", 8_000, 160_000, "release"), b("a", "C06", 4_000, 80_000, "checked")],
+        "C07" => vec![b("a", "C07", 10_000, 250_000, "release")],
+        "C08" => vec![b("a", "C08", 10_000, 250_000, "release")],
+        "C09" => vec![b("b", "C09", 40_000, 1_500_000, "release")],
+        "C10" => vec![b("b", "C10", 40_000, 1_500_000, "release")],
+        "C11" => vec![b("b", "C11", 8_000, 150_000, "release")],
+        "C12" => vec![b("b", "C12", 40_000, 1_500_000, "release")],
+        "C13" => vec![b("b", "C13", 40_000, 1_500_000, "release")],
+        "C14" => vec![b("a", "C14", 50_000, 1_000_000, "release")],
+        "C15" => vec![b("b", "C15", 40_000, 1_500_000, "release"), b("a", "C15", 5_000, 100_000, "release")],
+        "C16" => vec![b("a", "C16", 10_000, 250_000, "release")],
+        "C17" => vec![b("a", "C17", 60_000, 1_000_000, "release")],
+        "C18" => vec![b("c", "C18", 5_000, 120_000, "release")],
         _ => vec![],
     }
 }
@@ -375,29 +375,34 @@ pub fn run_check(prop: &str, tier: &str) -> i32 {
             .map(|(i, s)| json!({"cmd": "run", "sim": batch.sim, "focus": batch.focus, "seed": s, "want": [prop], "want_case": i < 40}))
             .collect();
         let mut timeouts: Vec<usize> = vec![];
-        let mut results: Vec<(usize, JobResult)> = vec![];
-        let nd = pool.run_batch(&jobs, budget, wall_cap.saturating_sub(t0.elapsed()).max(Duration::from_secs(5)), |j, r| {
-            if matches!(r, JobResult::Timeout { .. }) {
-                timeouts.push(j);
-            } else {
-                results.push((j, r));
-            }
-        });
+        let job_base = bi * 100_000_000;
+        let nd = {
+            let agg_ref = &mut agg;
+            pool.run_batch(&jobs, budget, wall_cap.saturating_sub(t0.elapsed()).max(Duration::from_secs(5)), |j, r| {
+                if matches!(r, JobResult::Timeout { .. }) {
+                    timeouts.push(j);
+                } else {
+                    let case_for_death = match &r {
+                        JobResult::Done(_) => None,
+                        _ => Some(crate::worker::gen_case(batch.sim, seeds[j], batch.focus)),
+                    };
+                    record(agg_ref, prop, batch.profile, j + job_base, seeds[j], r, case_for_death.as_ref());
+                }
+            })
+        };
         agg.not_dispatched += nd as u64;
         // a timeout is re-run once alone with twice the budget before it counts
         if !timeouts.is_empty() {
             let rerun: Vec<Value> = timeouts.iter().map(|&j| jobs[j].clone()).collect();
             let mut rr: Vec<(usize, JobResult)> = vec![];
             pool.run_batch(&rerun, budget * 2.0, Duration::from_secs(3600), |k, r| rr.push((timeouts[k], r)));
-            results.extend(rr);
-        }
-        results.sort_by_key(|x| x.0);
-        for (j, r) in results {
-            let case_for_timeout = match &r {
-                JobResult::Done(_) => None,
-                _ => Some(crate::worker::gen_case(batch.sim, seeds[j], batch.focus)),
-            };
-            record(&mut agg, prop, batch.profile, j + (bi * 10_000_000), seeds[j], r, case_for_timeout.as_ref());
+            for (j, r) in rr {
+                let case_for_timeout = match &r {
+                    JobResult::Done(_) => None,
+                    _ => Some(crate::worker::gen_case(batch.sim, seeds[j], batch.focus)),
+                };
+                record(&mut agg, prop, batch.profile, j + job_base, seeds[j], r, case_for_timeout.as_ref());
+            }
         }
         pool.shutdown();
     }
